@@ -74,11 +74,12 @@ const (
 	BadSig                      // next unused member signs other data
 	DupSameSig                  // the previous valid slot's signature bytes again
 	DupFreshSig                 // the previous valid slot's member signs again
+	Garbage                     // 64 random bytes
 	NKinds
 )
 
 func (k SlotKind) String() string {
-	return [...]string{"valid", "foreign", "bad-sig", "dup-same-sig", "dup-fresh-sig"}[k]
+	return [...]string{"valid", "foreign", "bad-sig", "dup-same-sig", "dup-fresh-sig", "garbage"}[k]
 }
 
 // Sigs produces one 64-byte signature per slot. who = committee members to use for Valid/BadSig
@@ -126,6 +127,10 @@ func (s *Set) Sigs(rng *rand.Rand, msg []byte, kinds []SlotKind, who []int) [][]
 				continue
 			}
 			out = append(out, sign(prevKey, msg))
+		case Garbage:
+			g := make([]byte, 64)
+			rng.Read(g)
+			out = append(out, g)
 		}
 	}
 	return out
